@@ -57,7 +57,8 @@ def gen_cases(tier, seed):
     batch = []
     for i in range(nrand):
         L = int(rng.integers(4, 9))
-        batch.append({"init": INITS[i % 3], "ops": [int(v) for v in rng.integers(0, len(OPS), L)], "cell": CELLS[(i // 3 + i) % len(CELLS)]})  # (i//3 + i): every cell meets every initial NAC state
+        batch.append({"init": INITS[i % 3], "ops": [int(v) for v in rng.integers(0, len(OPS), L)], "cell": CELLS[(i // 3 + i) % len(CELLS)],
+                      "fsf": 1.07 if rng.integers(5) == 0 else None})  # (i//3 + i): every cell meets every initial NAC state
         if len(batch) == 10:
             cases.append({"kind": "histories", "batch": batch, "seed": int(rng.integers(10 ** 6)), "_cost": 30})
             batch = []
@@ -72,14 +73,19 @@ def gen_cases(tier, seed):
 class World:
     """One Phonopy instance under test plus everything the harness needs to act on it."""
 
-    def __init__(self, cell, init, seed):
+    def __init__(self, cell, init, seed, fsf=None):
+        import warnings
+
         from vlib.gen import crystals, models, nac as nacgen, setup
 
         self.setup, self.models, self.nacgen = setup, models, nacgen
         self.case = {"crystal": {"name": cell}, "smat": np.eye(3, dtype=int).tolist()}
+        # constructor options that are part of the object's fixed identity (the fresh reference object gets the same ones)
+        self.over = {} if fsf is None else {"frequency_scale_factor": float(fsf)}
+        warnings.simplefilter("ignore", DeprecationWarning)
         ph, cd = setup.build_phonopy(self.case)
         self.case["pmat"] = cd["pmat"] if cd["pmat"] != "P" else None
-        ph, cd = setup.build_phonopy(self.case)
+        ph, cd = setup.build_phonopy(self.case, **self.over)
         self.ph = ph
         self.rng = np.random.default_rng(seed)
         self.k = 0
@@ -214,7 +220,7 @@ def queries(ph, with_thermal=True):
 def fresh_from(w):
     """The executable reference: a new object from the final structure, force constants, NAC parameters and masses."""
     ph = w.ph
-    fr, _ = w.setup.build_phonopy(w.case)
+    fr, _ = w.setup.build_phonopy(w.case, **w.over)
     if w.masses_last is not None:
         fr.masses = np.array(w.masses_last).copy()
     fr.force_constants = np.array(ph.force_constants, dtype="double", order="C").copy()
@@ -257,7 +263,8 @@ def run_case(c):
 
     if c["kind"] == "histories":
         for hi, h in enumerate(c["batch"]):
-            w = World(h["cell"], h["init"], c["seed"] + hi)
+            w = World(h["cell"], h["init"], c["seed"] + hi, fsf=h.get("fsf"))
+            obs["with_frequency_scale_factor"] = obs.get("with_frequency_scale_factor", 0) + int(h.get("fsf") is not None)
             base = queries(w.ph, with_thermal=False)
             names = [OPS[o] for o in h["ops"]]
             for o in h["ops"]:
@@ -277,7 +284,8 @@ def run_case(c):
             scale = max(np.abs(want["lam"]).max(), 1e-300)
             probs = compare(got, want, scale)
             if probs:
-                bad("stale_state", "history %s from initial state '%s': %s" % (names, h["init"], "; ".join(probs)), ops=names, init=h["init"], last_op=names[-1] if names else None)
+                bad("stale_state", "history %s from initial state '%s'%s: %s" % (names, h["init"], " (frequency_scale_factor=%s)" % h["fsf"] if h.get("fsf") else "", "; ".join(probs)),
+                    ops=names, init=h["init"], last_op=names[-1] if names else None, frequency_scale_factor=bool(h.get("fsf")))
             # caller arrays must be intact after the whole history
             for label, arr, crc in w.handed_in:
                 if zlib.crc32(np.ascontiguousarray(arr).tobytes()) != crc:
